@@ -27,11 +27,9 @@ func MarshalBinary[T any](t TestingT, cases []CaseBinary[T]) {
 	t.Helper()
 
 	for i, c := range cases {
-		if i == 0 {
-			if _, ok := any(c.Value).(encoding.BinaryMarshaler); !ok {
-				assert.FailNowf(t, "unable to test MarshalBinary", "type %T must implements encoding.BinaryMarshaler", c.Value)
-				return
-			}
+		if _, ok := any(c.Value).(encoding.BinaryMarshaler); !ok {
+			assert.FailNowf(t, "unable to test MarshalBinary", "type %T must implements encoding.BinaryMarshaler", c.Value)
+			return
 		}
 
 		if !isForMarshal(c.Constraint) {
@@ -68,11 +66,9 @@ func UnmarshalBinary[T any](t TestingT, cases []CaseBinary[T], helper TypeHelper
 
 	var f func(*T) encoding.BinaryUnmarshaler
 	for i, c := range cases {
-		if i == 0 {
-			if f = castToFunc[T, encoding.BinaryUnmarshaler](c.Value); f == nil {
-				assert.FailNowf(t, "unable to test UnmarshalBinary", "type %T must implements encoding.BinaryUnmarshaler", c.Value)
-				return
-			}
+		if f = castToFunc[T, encoding.BinaryUnmarshaler](c.Value); f == nil {
+			assert.FailNowf(t, "unable to test UnmarshalBinary", "type %T must implements encoding.BinaryUnmarshaler", c.Value)
+			return
 		}
 
 		if !isForUnmarshal(c.Constraint) {
